@@ -140,7 +140,9 @@ def _build_atoms(K, closure):
             neg_phi = LNot(phi)
 
             A_tail = []
-            if isinstance(phi, CTLS.Bool):
+            if (isinstance(phi, CTLS.Bool) or
+                    (isinstance(phi, CTLS.Not) and
+                     isinstance(phi.subformula(0), CTLS.Bool))):
                 for atom in A:
                     atom.add(phi)
             else:
